@@ -18,10 +18,12 @@ pub enum HOp {
     AddUser(usize, &'static str),
     AddFile(usize, &'static str),
     Restart,
+    /// the editor closes the document and opens it again under an equivalent URI spelling
+    ReopenAlt(usize),
 }
 
 fn hops() -> Vec<HOp> {
-    let mut v = vec![HOp::Open(0, 7), HOp::Open(1, 5), HOp::Change(0, 5), HOp::Restart];
+    let mut v = vec![HOp::Open(0, 7), HOp::Open(1, 5), HOp::Change(0, 5), HOp::Restart, HOp::ReopenAlt(0)];
     for w in WORDS {
         v.push(HOp::AddUser(0, w));
         v.push(HOp::AddFile(0, w));
@@ -39,7 +41,7 @@ fn to_op(h: &HOp) -> Option<Op> {
         HOp::Change(d, t) => Op::Change(*d, *t),
         HOp::AddUser(d, w) => Op::AddUser(*d, w),
         HOp::AddFile(d, w) => Op::AddFile(*d, w),
-        HOp::Restart => return None,
+        HOp::Restart | HOp::ReopenAlt(_) => return None,
     })
 }
 
@@ -82,10 +84,26 @@ fn run_history(seq: &[HOp], crash: bool) -> Result<Outcome, String> {
     let scratch = sess.world.root.join("recovered.txt");
     let mut asis_user: BTreeSet<String> = BTreeSet::new();
     let mut asis_file: Vec<BTreeSet<String>> = vec![BTreeSet::new(), BTreeSet::new()];
+    // (dictionary path, directory images at the crash points, words that must survive, word in flight)
+    let mut continuation: Option<(PathBuf, Vec<DirImage>, BTreeSet<String>, String, Op)> = None;
     for (si, h) in seq.iter().enumerate() {
         out.steps += 1;
         match to_op(h) {
-            None => sess.restart()?,
+            None => match h {
+                HOp::ReopenAlt(d) => {
+                    if !sess.client.docs[*d].open {
+                        out.applicable = false;
+                        return Ok(out);
+                    }
+                    let t = TEXTS.iter().position(|t| *t == sess.client.docs[*d].text).unwrap();
+                    sess.send(&Op::Close(*d));
+                    sess.server.run_default()?;
+                    sess.client.docs[*d].alt ^= true;
+                    sess.send(&Op::Open(*d, t));
+                    sess.server.run_default()?;
+                }
+                _ => sess.restart()?,
+            },
             Some(op) => {
                 if !sess.applicable(&op) {
                     out.applicable = false;
@@ -110,6 +128,7 @@ fn run_history(seq: &[HOp], crash: bool) -> Result<Outcome, String> {
                     let ino = |p: &Path| std::fs::metadata(p).map(|m| m.ino()).unwrap_or(0);
                     let mut inodes: Vec<u64> = vec![ino(&path)];
                     let mut states: Vec<Vec<u8>> = vec![std::fs::read(&path).unwrap_or_default()];
+                    let mut dirs: Vec<DirImage> = vec![dir_image(&path)];
                     let mut guard = 0;
                     while !sess.server.quiescent() {
                         let evs = sess.server.enabled();
@@ -119,6 +138,10 @@ fn run_history(seq: &[HOp], crash: bool) -> Result<Outcome, String> {
                         if states.last() != Some(&now) {
                             states.push(now);
                             inodes.push(ino(&path));
+                        }
+                        let di = dir_image(&path);
+                        if !dirs.contains(&di) {
+                            dirs.push(di);
                         }
                         guard += 1;
                         if guard > 5000 {
@@ -160,6 +183,7 @@ fn run_history(seq: &[HOp], crash: bool) -> Result<Outcome, String> {
                             }
                         }
                     }
+                    continuation = Some((path.clone(), dirs, ack.clone(), inflight.clone(), op.clone()));
                 } else {
                     sess.server.run_default()?;
                 }
@@ -219,7 +243,112 @@ fn run_history(seq: &[HOp], crash: bool) -> Result<Outcome, String> {
             break;
         }
     }
+    // Life after the crash: for every directory image a process death can leave behind (the
+    // dictionary file and whatever sits next to it), a new server is started on it and the user adds
+    // one more word; that word and everything acknowledged before must then be in the file.
+    if let (true, Some((path, dirs, ack, inflight, op))) = (out.viols.is_empty(), continuation) {
+        let taken: BTreeSet<String> = asis_user.iter().chain(asis_file.iter().flatten()).chain(ack.iter()).chain(std::iter::once(&inflight)).map(|w| w.to_lowercase()).collect();
+        if let Some(next) = WORDS[..3].iter().find(|w| !taken.contains(&w.to_lowercase())) {
+            for (k, di) in dirs.iter().enumerate() {
+                restore_dir(&path, di);
+                let main: Vec<u8> = di.iter().find(|(n, _)| n.is_empty()).map(|(_, b)| b.clone()).unwrap_or_default();
+                let before = recover(&mut sess, &scratch, &main)?;
+                sess.restart()?;
+                let (cmd, d) = match &op {
+                    Op::AddUser(d, _) => ("HarperAddToUserDict", *d),
+                    Op::AddFile(d, _) => ("HarperAddToFileDict", *d),
+                    _ => unreachable!(),
+                };
+                let uri = sess.uri(d);
+                let req = sess.server.request("workspace/executeCommand", json!({"command": cmd, "arguments": [next, uri]}));
+                sess.server.enqueue("add-after-crash", req);
+                sess.server.run_default()?;
+                out.crash_points += 1;
+                out.steps += 1;
+                let after = read_dict(&mut sess, &path)?;
+                let mut must: BTreeSet<String> = ack.clone();
+                must.extend(before.iter().filter(|w| **w == inflight).cloned());
+                must.insert(next.to_string());
+                let lost: Vec<&String> = must.iter().filter(|w| !after.contains(*w)).collect();
+                if !lost.is_empty() {
+                    let names: Vec<String> = di.iter().map(|(n, _)| format!("<dictionary>{n}")).collect();
+                    out.viols.push(Violation { sig: "crash:word-added-after-recovery-not-saved".into(), case: describe(seq), detail: json!({"crash_point": format!("directory-image-{k}"), "files_left_behind": names, "then_added": next, "file_after": after, "lost": lost}) });
+                    break;
+                }
+            }
+        }
+    }
     Ok(out)
+}
+
+/// The dictionary file and its siblings (files whose name starts with the dictionary's name), as
+/// (name suffix, bytes); the dictionary itself has the empty suffix.
+type DirImage = Vec<(String, Vec<u8>)>;
+
+fn dir_image(path: &Path) -> DirImage {
+    let mut v: DirImage = vec![];
+    let (Some(dir), Some(name)) = (path.parent(), path.file_name().map(|n| n.to_string_lossy().to_string())) else { return v };
+    if let Ok(rd) = std::fs::read_dir(dir) {
+        for e in rd.flatten() {
+            let n = e.file_name().to_string_lossy().to_string();
+            if let Some(suffix) = n.strip_prefix(&name) {
+                if e.path().is_file() {
+                    v.push((suffix.to_string(), std::fs::read(e.path()).unwrap_or_default()));
+                }
+            }
+        }
+    }
+    v.sort();
+    v
+}
+
+fn restore_dir(path: &Path, img: &DirImage) {
+    for (suffix, _) in dir_image(path) {
+        let mut n = path.as_os_str().to_owned();
+        n.push(&suffix);
+        let _ = std::fs::remove_file(PathBuf::from(n));
+    }
+    if let Some(dir) = path.parent() {
+        let _ = std::fs::create_dir_all(dir);
+    }
+    for (suffix, bytes) in img {
+        let mut n = path.as_os_str().to_owned();
+        n.push(suffix);
+        let _ = std::fs::write(PathBuf::from(n), bytes);
+    }
+}
+
+fn parse_hop(t: &str) -> Option<HOp> {
+    let (name, rest) = t.split_once('(').unwrap_or((t, ""));
+    let args: Vec<String> = rest.trim_end_matches(')').split(", ").map(|a| a.trim_matches('"').to_string()).collect();
+    let num = |i: usize| args.get(i).and_then(|a| a.parse::<usize>().ok());
+    let word = |i: usize| args.get(i).and_then(|a| WORDS.iter().find(|w| **w == a.as_str()).copied());
+    Some(match name {
+        "Open" => HOp::Open(num(0)?, num(1)?),
+        "Change" => HOp::Change(num(0)?, num(1)?),
+        "AddUser" => HOp::AddUser(num(0)?, word(1)?),
+        "AddFile" => HOp::AddFile(num(0)?, word(1)?),
+        "Restart" => HOp::Restart,
+        "ReopenAlt" => HOp::ReopenAlt(num(0)?),
+        _ => return None,
+    })
+}
+
+/// Re-run one recorded server history (with its crash points when it ends in an addition).
+pub fn replay(case: &Value) -> Vec<(String, Value)> {
+    crate::e3::sandbox_env();
+    let Some(hist) = case["history"].as_array() else {
+        return vec![("bad-replay-file: no history (wasm import cases are re-run by ./check C07)".into(), json!({}))];
+    };
+    let seq: Option<Vec<HOp>> = hist.iter().map(|h| h.as_str().and_then(parse_hop)).collect();
+    let Some(seq) = seq else { return vec![("bad-replay-file: unknown operation".into(), json!({}))] };
+    let ends_in_add = matches!(seq.last(), Some(HOp::AddUser(..)) | Some(HOp::AddFile(..)));
+    match catch(|| run_history(&seq, ends_in_add)) {
+        Ok(Ok(o)) if !o.applicable => vec![("history-not-applicable".into(), json!({}))],
+        Ok(Ok(o)) => o.viols.into_iter().map(|v| (v.sig, v.detail)).collect(),
+        Ok(Err(e)) => vec![(format!("machinery: {e}"), json!({}))],
+        Err(p) => vec![(format!("server-panic:{}", msg_class(&p.msg)), json!({"msg": p.msg}))],
+    }
 }
 
 /// harper_wasm::Linter: import_words / lint / export_words over all ordered pairs and triples.
